@@ -839,6 +839,12 @@ func cmdCheck(id, tier string) int {
 			replayPath = raw
 			code, outp = runReplay(self, replayPath)
 		}
+		if code != exitViolation && strings.HasSuffix(tr.Oracle, ".crash") && diedHard(outp) {
+			// the fresh process died the same way (a Go runtime fatal error exits with status 2, which is also
+			// this tool's "infrastructure" status): that IS the reproduction of a crash
+			code = exitViolation
+			outp = "replay: the fresh process crashed as the worker did\n" + firstLines(outp, 12)
+		}
 		if code != exitViolation && !strings.HasSuffix(tr.Oracle, ".level_diff") && !strings.HasSuffix(tr.Oracle, ".hang") {
 			// state surviving from run to run inside the worker process? replay
 			// the shard's earlier run indices first
@@ -906,6 +912,20 @@ func sanitize(s string) string {
 		}
 		return '_'
 	}, s)
+}
+
+// diedHard: the output of a process that was killed by the Go runtime (fault,
+// fatal error) rather than ending through this tool's own exit paths.
+func diedHard(out string) bool {
+	return strings.Contains(out, "fatal error:") || strings.Contains(out, "unexpected signal") || strings.Contains(out, "[signal SIG") || strings.Contains(out, "unexpected fault address")
+}
+
+func firstLines(s string, n int) string {
+	ls := strings.Split(strings.TrimSpace(s), "\n")
+	if len(ls) > n {
+		ls = ls[:n]
+	}
+	return strings.Join(ls, "\n")
 }
 
 func runReplay(self, path string) (int, string) {
